@@ -1,5 +1,5 @@
 # replay of a bounded stand-in violation: re-run native/c01_backends.py
 import sys
-print('Catstate(0.8, 0.4, p=0.5); Rgate; BSgate on bosonic/complex: quadrature moments / photon numbers [-0.2192, 0.034, 0.2602, -0.2554, -0.0847, 0.13, 0.3744, 0.2656] differ from the fock simulator [0.2192, -0.034, -0.2602, 0.2554, 0.0847, -0.13, 0.3744, 0.2656]')
+print('Catstate(0.8, 0.4, p=0.0); Rgate; BSgate on bosonic/complex: quadrature moments / photon numbers [0.0, 0.0, 0.0, 0.0, 0.0, 0.0, 0.2115, 0.15] differ from the fock simulator [0.0, 0.0, 0.0, 0.0, 0.0, 0.0, 0.2115, 0.15]')
 print('REPLAY-VIOLATION')
 sys.exit(1)
